@@ -151,6 +151,7 @@ type Obligation struct {
 	Hints   []*Term
 	Axioms  []*Term
 	BytesAxioms bool
+	shaped  bool
 	// results
 	Verdict string // discharged / refuted / undecided
 	Backend string
@@ -196,6 +197,17 @@ type FCtx struct {
 	entry         *State
 	topBindings   *Bindings
 	paramObjs     []types.Object
+	reveal        bool
+	sideFacts     []*Term
+	recApps       []recApp
+	recSeen       map[string]bool
+	recDepth      int
+}
+
+type recApp struct {
+	sf   *SpecFunc
+	args []TV
+	app  *Term
 }
 
 func (c *FCtx) freshName(base string) string {
@@ -524,8 +536,25 @@ func structOf(t types.Type) *types.Struct {
 	return s
 }
 
+// embRef: the sub-object holding a struct-typed field (a struct stored by value inside a heap object).
+func (c *FCtx) embRef(owner types.Type, f *types.Var, ref *Term) *Term {
+	return App("emb$"+structKey(owner)+"."+f.Name(), SInt, ref)
+}
+
+// embFacts: a sub-object is non-nil and is as old as its owner.
+func (c *FCtx) embFacts(state *State, er, ref *Term) {
+	a0 := Var("$alloc@pre", SInt)
+	state.assume(IGt(er, IntC(0)))
+	state.assume(Eq(ILt(ref, a0), ILt(er, a0)))
+}
+
 // loadField reads field fname of the struct object at ref (struct type st).
 func (c *FCtx) loadField(state *State, ref *Term, owner types.Type, f *types.Var) Value {
+	if _, isStruct := f.Type().Underlying().(*types.Struct); isStruct {
+		er := c.embRef(owner, f, ref)
+		c.embFacts(state, er, ref)
+		return c.loadCell(state, er, f.Type())
+	}
 	base := "F$" + structKey(owner) + "." + f.Name()
 	var facts []*Term
 	var slices []*SliceV
@@ -542,6 +571,7 @@ func (c *FCtx) loadField(state *State, ref *Term, owner types.Type, f *types.Var
 		return &SliceV{Base: App("sub$"+path, SInt, ref), Off: c.idxC(0), Len: c.idxC(a.Len()), Cap: c.idxC(a.Len()), Elem: a.Elem()}
 	})
 	c.collectSlices(v, &slices)
+	allocNow := c.heapGet(state, "$alloc", SInt)
 	for _, s := range slices {
 		if s.Base.Op == "app" && strings.HasPrefix(s.Base.Name, "sub$") {
 			facts = append(facts, IGt(s.Base, IntC(0)))
@@ -549,6 +579,8 @@ func (c *FCtx) loadField(state *State, ref *Term, owner types.Type, f *types.Var
 			continue
 		}
 		facts = append(facts, c.sliceWF(s)...)
+		// the heap is closed under allocation
+		facts = append(facts, ILt(s.Base, allocNow))
 	}
 	for _, fct := range facts {
 		state.assume(fct)
@@ -557,6 +589,12 @@ func (c *FCtx) loadField(state *State, ref *Term, owner types.Type, f *types.Var
 }
 
 func (c *FCtx) storeField(state *State, ref *Term, owner types.Type, f *types.Var, v Value) {
+	if _, isStruct := f.Type().Underlying().(*types.Struct); isStruct {
+		er := c.embRef(owner, f, ref)
+		c.embFacts(state, er, ref)
+		c.storeCell(state, er, f.Type(), v)
+		return
+	}
 	base := "F$" + structKey(owner) + "." + f.Name()
 	if _, isArr := f.Type().Underlying().(*types.Array); isArr {
 		// array assignment by value: copy contents
